@@ -12,6 +12,7 @@ import fcntl
 import glob
 import hashlib
 import json
+import re
 import os
 import shutil
 import subprocess
@@ -166,10 +167,60 @@ def extract(config, release=False, repo=None, quiet=True, _retry=0):
         if _retry < 3:
             return extract(config, release=release, repo=repo, quiet=quiet, _retry=_retry + 1)
         raise
+    facts, folded = fold_new_modules(facts)
+    if folded:
+        meta["folded_modules"] = folded
     meta["wall_s"] = round(time.time() - t0, 2)
     meta["fns"] = len(facts["fns"])
     meta["adts"] = len(facts["adts"])
     return facts, meta
+
+
+_REF_MODS = None
+
+
+def reference_modules():
+    global _REF_MODS
+    if _REF_MODS is None:
+        try:
+            _REF_MODS = set(json.load(open(os.path.join(VERIF, "tables", "known_fns.json"))).get("modules", []))
+        except OSError:
+            _REF_MODS = set()
+    return _REF_MODS
+
+
+def fold_new_modules(facts):
+    """Private regrouping is not behaviour: a module that the reference tree does not have (`mod detail { .. }`, a new
+    file `recv.rs`) is folded into its nearest ancestor the reference does have, in every path of the facts, so the rules
+    find `platform::unix::recv` wherever the maintainers keep it.  A module is folded only when none of its items would
+    collide with an item of the target module (otherwise it is left alone and the anchors report what is missing)."""
+    ref = reference_modules()
+    mods = facts.get("mods")
+    if not ref or not mods:
+        return facts, []
+    new = sorted((m for m in mods if m not in ref), key=lambda m: -m.count("::"))
+    if not new:
+        return facts, []
+    items = set(f["path"] for f in facts["fns"]) | set(a["path"] for a in facts["adts"]) | set(c["path"] for c in facts.get("consts", []))
+    text = json.dumps(facts)
+    folded = []
+    for m in new:
+        parts = m.split("::")
+        tgt = ""
+        for i in range(len(parts) - 1, 0, -1):
+            if "::".join(parts[:i]) in ref:
+                tgt = "::".join(parts[:i])
+                break
+        pre, tpre = m + "::", (tgt + "::" if tgt else "")
+        moved = [p for p in items if p.startswith(pre)]
+        if any((tpre + p[len(pre):]) in items for p in moved):
+            continue
+        text = re.sub(r"(?<![A-Za-z0-9_:])" + re.escape(pre), tpre.replace("\\", "\\\\"), text)
+        items = set((tpre + p[len(pre):]) if p.startswith(pre) else p for p in items)
+        folded.append("%s -> %s" % (m, tgt or "<crate root>"))
+    if not folded:
+        return facts, []
+    return json.loads(text), folded
 
 
 def _prune(fdir, keep):
